@@ -320,6 +320,28 @@ pub fn archives(seed: u64, thorough: bool) -> Vec<Arch> {
         ae.enc = Enc::Aes { version: 2, strength: 3, pw: b"pw".to_vec(), salt_seed: 1 };
         let spec = Spec { entries: vec![e("ok"), ae], ..Default::default() };
         add(format!("builder:aes-second:m{m}"), build(&spec).0, Some(1), spec.to_json(), Some(b"pw"));
+        // local extra areas other producers really write: stray bytes behind the last record, bare zero padding
+        // (old zipalign), an unknown record of zero length, many records; the central directory does not repeat them
+        let xb = crate::reference::zipbuild::extra_block;
+        let areas: Vec<Vec<u8>> = vec![
+            [xb(0x6666, b"le"), vec![0]].concat(),
+            [xb(0x6666, b"le"), vec![0, 0]].concat(),
+            [xb(0x6666, b"le"), vec![0, 0, 0]].concat(),
+            vec![0],
+            vec![0, 0, 0],
+            vec![0; 4],
+            vec![0; 7],
+            xb(0xbeef, b""),
+            (0..9u16).flat_map(|i| xb(0x7000 + i, &vec![i as u8; i as usize])).collect(),
+            // a record that claims more bytes than the area holds
+            vec![0x66, 0x66, 9, 0, 1, 2],
+        ];
+        for (ai, area) in areas.iter().enumerate() {
+            let mut x = e("odd-local-extra");
+            x.local_extra = area.clone();
+            let spec = Spec { entries: vec![x, e("after")], ..Default::default() };
+            add(format!("builder:local-extra-{ai}:m{m}"), build(&spec).0, None, spec.to_json(), None);
+        }
     }
     v
 }
@@ -349,8 +371,8 @@ pub fn run(args: &Args) -> i32 {
     let thorough = args.tier.thorough();
     let archs = archives(args.seed, thorough);
     ctx.rule = format!(
-        "E-SEQ over consumption histories. Archives: every writer program of 1 and 2 entries over a {}-entry alphabet and of 3 entries over its first 9 (thorough 12) (files of every method, directories, symlinks, large_file entries, non-ASCII and empty names), plus 24 builder-made archives \
-         (local/central extras, file comments, DOS/Unix made-by, ZIP64 local blocks, forced ZIP64 end records; and data-descriptor / ZipCrypto / AES entries for the refusal clause): {} archives. For each archive ALL 6^n per-entry consumption patterns over {{none, 1, 7, all-1, all, past-EOF}} \
+        "E-SEQ over consumption histories. Archives: every writer program of 1 and 2 entries over a {}-entry alphabet and of 3 entries over its first 9 (thorough 12) (files of every method, directories, symlinks, large_file entries, non-ASCII and empty names), plus 64 builder-made archives \
+         (local/central extras, local extra areas with stray bytes / bare zero padding / empty and many records / an overlong record, file comments, DOS/Unix made-by, ZIP64 local blocks, forced ZIP64 end records; and data-descriptor / ZipCrypto / AES entries for the refusal clause): {} archives. For each archive ALL 6^n per-entry consumption patterns over {{none, 1, 7, all-1, all, past-EOF}} \
          are run over a full-read stream and a 1-byte-read stream, and the 'all' pattern under one cut at every byte position (archives <= 600 bytes). Oracle: the seekable reader on the same bytes (names, sizes, methods, DOS words, content prefixes), Ok(None) after the last entry, \
          errors for unsupported entries; visitor (over full-read, 1-byte, 3-byte and every single-cut stream): files in order, then central-directory metadata (name, unix_mode, comment) once per entry in order. distinct_nontrivial = distinct (archive, pattern tuple, stream mode) executions (counted).",
         if thorough { 40 } else { 24 },
